@@ -397,7 +397,7 @@ pub fn run(ctx: &mut Ctx) {
     {
         let mut mix = Mix::new(ctx.seed, 0xa11);
         for (t, len, part) in crate::gen::payload::pairwise_shapes() {
-            for base in 0..3u8 {
+            for base in 0..4u8 {
                 let mut inputs = Vec::new();
                 crate::gen::payload::pairwise_specials(t, len, part, 1, base, &mut mix, |b| inputs.push(b));
                 for b in inputs {
